@@ -124,6 +124,10 @@ pub fn check_record(r: &Value) -> Verdict {
     if bt.len() != rt.len() {
         return Verdict::fail("structure:length", format!("{} tokens before, {} after renaming\n{}\n--- base output\n{}\n--- renamed output\n{}", bt.len(), rt.len(), show(), base_out, ren_out));
     }
+    // the parameters of one emitted function have different names (Metal receives globals as extra parameters)
+    if let Some((func, name)) = duplicate_parameter(&rt) {
+        return Verdict::fail("name-collision:parameters", format!("function `{}` of the renamed output has two parameters called `{}`\n{}\n--- renamed output\n{}", func, name, show(), ren_out));
+    }
     // user-derived identifiers of the base output
     let derived = |b: &str| -> Option<(String, Option<String>)> {
         // Metal trampolines copy out / inout parameters into locals called __<parameter>
@@ -251,8 +255,8 @@ pub fn check_record(r: &Value) -> Verdict {
             None => {}
         }
     }
-    if pipeline {
-        // entry points take stage inputs: not executed, the structural comparison is the oracle
+    if pipeline || r["no_exec"].as_bool().unwrap_or(false) {
+        // entry points take stage inputs, resources have no contents: not executed, the structural comparison is the oracle
         labels.push("pipeline_io".into());
         labels.sort();
         labels.dedup();
@@ -286,6 +290,70 @@ enum Kind {
     Global,
     TemplateParam,
     Namespace,
+}
+
+/// (function, parameter name) of the first function definition or declaration whose parameter list names one
+/// parameter twice. A parameter's name is the last identifier of its tokens outside of attributes and array bounds.
+fn duplicate_parameter(toks: &[Tok]) -> Option<(String, String)> {
+    let mut i = 0;
+    while i + 1 < toks.len() {
+        if let (Tok::Id(fname), Tok::P("(")) = (&toks[i], &toks[i + 1]) {
+            // a declaration: the token before the name is a type word, never an operator or a bracket
+            let declares = i > 0 && matches!(&toks[i - 1], Tok::Id(w) if !matches!(w.as_str(), "return" | "else" | "case" | "do"));
+            if declares {
+                let mut depth = 0i32;
+                let mut j = i + 1;
+                let mut names: Vec<String> = Vec::new();
+                let mut last: Option<String> = None;
+                let mut attr = 0i32;
+                let mut square = 0i32;
+                let mut is_list = true;
+                while j < toks.len() {
+                    match &toks[j] {
+                        Tok::P("(") => depth += 1,
+                        Tok::P(")") => {
+                            depth -= 1;
+                            if depth == 0 {
+                                if let Some(n) = last.take() {
+                                    names.push(n);
+                                }
+                                break;
+                            }
+                        }
+                        Tok::P("[[") => attr += 1,
+                        Tok::P("]]") => attr -= 1,
+                        Tok::P("[") => square += 1,
+                        Tok::P("]") => square -= 1,
+                        Tok::P(",") if depth == 1 && attr == 0 && square == 0 => {
+                            match last.take() {
+                                Some(n) => names.push(n),
+                                None => is_list = false,
+                            }
+                        }
+                        Tok::P("=") if depth == 1 => {}
+                        Tok::Id(n) if attr == 0 && square == 0 && depth >= 1 => last = Some(n.clone()),
+                        Tok::P(";") | Tok::P("{") | Tok::P("}") => {
+                            is_list = false;
+                            break;
+                        }
+                        _ => {}
+                    }
+                    j += 1;
+                }
+                // only parameter lists that are followed by a body or a `;` (definitions and prototypes)
+                let followed = matches!(toks.get(j + 1), Some(Tok::P("{")) | Some(Tok::P(";")));
+                if is_list && followed {
+                    for a in 0..names.len() {
+                        if names[..a].contains(&names[a]) {
+                            return Some((fname.clone(), names[a].clone()));
+                        }
+                    }
+                }
+            }
+        }
+        i += 1;
+    }
+    None
 }
 
 fn collect_locals(ss: &[St], f: usize, out: &mut Vec<(usize, Kind)>) {
@@ -348,6 +416,9 @@ fn entities(p: &Prog) -> Vec<(usize, Kind)> {
         for (mi, m) in s.methods.iter().enumerate() {
             let scope_index = 10_000 + si * 100 + mi;
             v.push((m.name, Kind::Field(si)));
+            if let Some((t, _)) = m.template {
+                v.push((t, Kind::TemplateParam));
+            }
             for prm in &m.params {
                 v.push((prm.name, Kind::Param(scope_index)));
             }
@@ -647,7 +718,7 @@ fn table_program(kind: usize, word: &str) -> (String, String, Vec<(String, Strin
 
 pub fn run(ctx: &mut Ctx) {
     use proptest::prelude::*;
-    ctx.rule = "A program and a consistently renamed copy are compiled for DirectX HLSL, Vulkan HLSL or Metal. Renamings: (fresh) every identifier to a fresh plain name; (reserved) 1-3 entities onto words the target reserves, drawn from independent lists (86 C++14 keywords, 9 Metal address-space / stage keywords and the namespace name, 87 HLSL reserved words and keywords) - also exhaustively: every word x 11 entity kinds (struct, field, enum, enum value, static, static const, function, overloaded function, parameter, local, template parameter) in a fixed program; (suffix) 1-3 entities onto name_N forms that collide with the names generated for overloads and template instances; (reserved_suffix) one entity onto a reserved word and 1-2 others onto word_0 / word_1, the names the exporter generates for it; (shared) one name shared by locals / parameters of different functions, by fields of different structs, by statics of different namespaces, or by a static and locals / parameters of functions that do not name it; (namespace_statics) exhaustively, every assignment of {own name, one shared plain name, its generated form name_0} to the statics of two sibling namespaces and of the global scope and to a parameter, a local and a nested local of functions that reach those statics only through calls (2 187 assignments x 3 targets); (pipeline_io) exhaustively, every reserved word on each of the 10 interface names (output struct, its members with semantics, entry points, stage parameters) of a vertex + pixel pipeline compiled with its generated entry points. Checked: identical token streams up to identifiers with a consistent identifier map; fixed identifiers unchanged; plain names kept verbatim; no emitted user name is reserved in the target; no two entities share an emitted name unless the sharing is legal; the renamed program passes the C01/C02 differential executor. Renamings RSSL's own front end rejects are skipped and counted. Non-trivial = both programs compiled and at least one user identifier was compared; distinct = hash of (renamed source, target).".into();
+    ctx.rule = "A program and a consistently renamed copy are compiled for DirectX HLSL, Vulkan HLSL or Metal. Renamings: (fresh) every identifier to a fresh plain name; (reserved) 1-3 entities onto words the target reserves, drawn from independent lists (86 C++14 keywords, 9 Metal address-space / stage keywords and the namespace name, 87 HLSL reserved words and keywords) - also exhaustively: every word x 11 entity kinds (struct, field, enum, enum value, static, static const, function, overloaded function, parameter, local, template parameter) in a fixed program; (suffix) 1-3 entities onto name_N forms that collide with the names generated for overloads and template instances; (reserved_suffix) one entity onto a reserved word and 1-2 others onto word_0 / word_1, the names the exporter generates for it; (shared) one name shared by locals / parameters of different functions, by fields of different structs, by statics of different namespaces, or by a static and locals / parameters of functions that do not name it; (namespace_statics) exhaustively, every assignment of {own name, one shared plain name, its generated form name_0} to the statics of two sibling namespaces and of the global scope and to a parameter, a local and a nested local of functions that reach those statics only through calls (2 187 assignments x 3 targets x {statics, resources, statics next to a global constant}); (pipeline_io) exhaustively, every reserved word on each of the 10 interface names (output struct, its members with semantics, entry points, stage parameters) of a vertex + pixel pipeline compiled with its generated entry points. Checked: identical token streams up to identifiers with a consistent identifier map; fixed identifiers unchanged; plain names kept verbatim; no emitted user name is reserved in the target; no two entities share an emitted name unless the sharing is legal; the renamed program passes the C01/C02 differential executor. Renamings RSSL's own front end rejects are skipped and counted. Non-trivial = both programs compiled and at least one user identifier was compared; distinct = hash of (renamed source, target).".into();
     ctx.assumptions.push("reserved-word lists are limited to words every implementation of the target rejects as an identifier; names that are merely builtin functions are not required to be renamed".into());
     ctx.assumptions.push("namespaces are not generated: names shared between namespaces are not covered".into());
     if !ctx.replay_tier(&check_record) {
@@ -721,8 +792,21 @@ pub fn run(ctx: &mut Ctx) {
                 na = n[0], nb = n[1], ga = n[2], gb = n[3], gg = n[4], fa = n[5], fb = n[6], hh = n[7], user = n[8], va = n[9], vb = n[10], vu = n[11], lu = n[12], li = n[13]
             )
         };
+        // the same program with resources and a uniform instead of the statics: on Metal they travel as parameters too
+        let ns_program_resources = |n: &[String]| -> String {
+            format!(
+                "namespace {na} {{\n    StructuredBuffer<int> {ga};\n    int {fa}(int {va}) {{ return {na}::{ga}[{va}]; }}\n}}\nnamespace {nb} {{\n    Buffer<int> {gb};\n    int {fb}(int {vb}) {{ return {nb}::{gb}[{vb}] + {na}::{ga}[0]; }}\n}}\nconst Texture2D<int> {gg};\nint {hh}() {{ return {gg}[uint2(0, 0)] + {na}::{fa}(1); }}\nint {user}(int {vu}) {{\n    int {lu} = {vu} * 2;\n    {{\n        int {li} = {lu} + 1;\n        {lu} += {li};\n    }}\n    return {na}::{fa}({vu}) * 100 + {nb}::{fb}({lu}) * 10 + {na}::{ga}[1] + {nb}::{gb}[2] + {hh}();\n}}\n",
+                na = n[0], nb = n[1], ga = n[2], gb = n[3], gg = n[4], fa = n[5], fb = n[6], hh = n[7], user = n[8], va = n[9], vb = n[10], vu = n[11], lu = n[12], li = n[13]
+            )
+        };
+        // and with a constant at global scope: on Metal it stays a global next to the parameters
+        let ns_program_constant = |n: &[String]| -> String {
+            ns_program(n).replace(&format!("static int {} = 5;", n[4]), &format!("static const int {} = 5;", n[4])).replace(&format!("{{ {} += 1; return", n[4]), "{ return")
+        };
         let per_target = 3u64.pow(VARYING.len() as u32);
         let ns_make = |i: u64| {
+            let resources = i >= per_target * 3 && i < per_target * 6;
+            let constant = i >= per_target * 6;
             let tgt = [Tgt::Dx, Tgt::Vk, Tgt::Msl][(i / per_target) as usize % 3];
             let mut k = i % per_target;
             let base_names: Vec<String> = NS_NAMES.iter().map(|s| s.to_string()).collect();
@@ -740,10 +824,17 @@ pub fn run(ctx: &mut Ctx) {
             // not a renaming that keeps the meaning: the local of the outer block named like the parameter, or the
             // nested local named like the outer local its initialiser reads
             let invalid = names[12] == names[11] || names[13] == names[12];
-            json!({"base": ns_program(&base_names), "renamed": ns_program(&names), "map": map, "names": NS_NAMES, "grouped": [], "scopes": scopes, "invalid": invalid,
+            let (base_text, renamed_text) = if resources {
+                (ns_program_resources(&base_names), ns_program_resources(&names))
+            } else if constant {
+                (ns_program_constant(&base_names), ns_program_constant(&names))
+            } else {
+                (ns_program(&base_names), ns_program(&names))
+            };
+            json!({"base": base_text, "renamed": renamed_text, "map": map, "names": NS_NAMES, "grouped": [], "scopes": scopes, "invalid": invalid, "no_exec": resources,
                 "expect_verbatim": [], "shared_ok": [["li_zz", "vu_zz"]], "class": "namespace_statics", "target": tgt.name(), "arg_seed": 1})
         };
-        ctx.run_enum("namespace_static_names", per_target * 3, true, ns_make, |i| {
+        ctx.run_enum("namespace_static_names", per_target * 9, true, ns_make, |i| {
             let r = ns_make(i);
             if r["invalid"].as_bool().unwrap_or(false) {
                 Verdict::pass(None, vec!["namespace_statics_not_a_renaming".into()])
